@@ -83,7 +83,9 @@ INST_KEYS = ['InstantiatedStaticMethod.construct', 'InstantiatedConstructor.cons
 #      itertools.product: out of the engine's reach) -- type-level contracts, assumed; the product order is a bounded clause.
 TN_LIST = 'list[str]'
 contract('InstantiatedClass.instantiate_parent_class', params={'typenames': TN_LIST}, returns='estr|ref:Typename',
-         modifies=['alloc'], assumed=True, note='type-level; the substituted base is checked by the bounded oracle (C02)')
+         modifies=['alloc'],
+         # a base class that is not templated passes through; a templated one goes through instantiate_type (assumed contract)
+         ensures=['implies(not isinstance(old(self.original.parent_class), TemplatedType), same(result, old(self.original.parent_class)))'])
 contract('InstantiatedClass.instantiate_ctors', params={'typenames': TN_LIST}, returns='list[ref:InstantiatedConstructor]', fresh=True,
          modifies=['alloc'], ensures=['forall(0, len(result), lambda j: result[j].name == self.name)'], assumed=True,
          note='multilevel_instantiation + InstantiatedConstructor.construct (proved: the constructor carries parent.name)')
@@ -108,6 +110,8 @@ contract('InstantiatedClass.__init__', params={'original': 'ref:Class', 'instant
                   # named by appending the capitalised argument names (or by the typedef's name)
                   'self.name == ' + CLS_NAME,
                   'self.enums == old(original.enums)', 'self.dunder_methods == old(original.dunder_methods)',
+                  # a base class that is not templated passes through
+                  'implies(not isinstance(old(original.parent_class), TemplatedType), same(self.parent_class, old(original.parent_class)))',
                   # a complete instantiation: one argument per template parameter
                   'old(template_arity(original.template)) < 0 or old(template_arity(original.template)) == len(instantiations)',
                   'forall(0, len(self.ctors), lambda j: self.ctors[j].name == self.name and self.ctors[j].parent == self)',
